@@ -452,7 +452,7 @@ def m_slice_index(I, args, callee):
         raise Unsupported('index by ' + kind)
     okb = I.binop('BitAnd', I.binop('Le', a, b), I.binop('Le', b, n))
     I.oblige(okb, 'slice-range-oob', 'slice range out of bounds (len %d) in %s' % (sl.len, I.curfn[-1].name))
-    av, bv = I.concretize(a, 'range start'), I.concretize(b, 'range end')
+    av, bv = I.concretize(a, 'range start', limit=400), I.concretize(b, 'range end', limit=400)
     is_str = 'str' in callee.split(' as ')[0] or 'String' in callee.split(' as ')[0]
     if is_str:
         check_char_boundary(I, sl, av)
@@ -480,8 +480,18 @@ def check_char_boundary(I, sl, i):
 def m_is_char_boundary(I, args, callee):
     sl, idx = args
     sl = as_slice(I, sl)
-    i = I.concretize(idx, 'is_char_boundary index')
-    return is_boundary_expr(I, sl, i)
+    if idx.conc():
+        return is_boundary_expr(I, sl, idx.v)
+    # symbolic index: disjunction over the positions (no forking)
+    alts = []
+    for k in range(sl.len + 1):
+        b = is_boundary_expr(I, sl, k)
+        if b.conc():
+            if b.v:
+                alts.append(idx.v == k)
+        else:
+            alts.append(z3.And(idx.v == k, b.v))
+    return I._boolv(z3.Or(alts)) if alts else BoolV(False)
 
 
 def m_vec_new(I, args, callee):
@@ -897,17 +907,43 @@ def m_str_repeat(I, args, callee):
 
 
 def m_str_parse_usize(I, args, callee):
+    """str::parse::<usize>: optional '+', then one or more ASCII digits, value < 2^64; anything else is Err"""
     s = as_slice(I, args[0])
-    bs = conc_bytes(I, s)
-    if bs is None:
-        raise Unsupported('parse::<usize> on symbolic text')
-    try:
-        txt = bs.decode()
-        if re.match(r'^\+?\d+$', txt) and int(txt) < (1 << 64):
-            return ok(usize(int(txt)))
-    except Exception:
-        pass
-    return err(Opaque('ParseIntError', (bs,)))
+    es = elems(I, s)
+    bad = err(Opaque('ParseIntError', ()))
+    if not es:
+        return bad
+    i = 0
+    if len(es) > 1 and truthy(I, I.binop('Eq', es[0], IntV(8, 43))):
+        i = 1
+    if len(es) - i > 19:
+        raise Unsupported('parse::<usize> of more than 19 digits')
+    acc = IntV(64, 0)
+    for e in es[i:]:
+        isd = I.binop('BitAnd', I.binop('Ge', e, IntV(8, 48)), I.binop('Le', e, IntV(8, 57)))
+        if not truthy(I, isd):
+            return bad
+        d = IntV(64, e.v - 48) if e.conc() else IntV(64, z3.ZeroExt(56, e.v - 48))
+        acc = I.binop('Add', I.binop('Mul', acc, IntV(64, 10)), d)
+    return ok(acc)
+
+
+def m_box_new_uninit(I, args, callee):
+    """Box::<[T; N]>::new_uninit() as used by the vec![..] lowering: Box -> Unique -> NonNull -> MaybeUninit{ManuallyDrop{MaybeDangling{value}}}"""
+    inner = Agg('MaybeUninit', [UNIT, Agg('ManuallyDrop', [Agg('MaybeDangling', [HOLE])])])
+    return Agg('BoxRaw', [Agg('Unique', [Ref(Cell(inner), ()), Agg('PhantomData', [])])])
+
+
+def m_box_into_vec(I, args, callee):
+    inner = I.deref(args[0].fields[0].fields[0])
+    arr = inner.fields[1].fields[0].fields[0]
+    if arr is HOLE:
+        I.fail('assume_init-uninit', 'box_assume_init_into_vec on an unwritten box (UB)')
+    return vec(arr.fields)
+
+
+def m_path_to_path_buf(I, args, callee):
+    return Agg('PathBuf', [m_to_owned_str(I, [as_slice(I, args[0])], callee)])
 
 
 def m_char_eq_pattern(I, args, callee):
@@ -1468,6 +1504,11 @@ MODELS = [
     (r'^<Rc<.*> as Deref>::deref$', m_rc_deref),
     (r'^<Rc<.*> as Clone>::clone$', m_rc_clone),
     (r'^Box::<.*>::new$', m_box_new),
+    (r'^Box::<.*>::new_uninit$', m_box_new_uninit),
+    (r'box_assume_init_into_vec_unsafe::', m_box_into_vec),
+    (r'^Path::to_path_buf$', m_path_to_path_buf),
+    (r'^<std::vec::IntoIter<.*> as IntoIterator>::into_iter$', m_identity),
     (r'^<PathBuf as From<String>>::from$|^<PathBuf as From<&str>>::from$|^PathBuf::from$', m_pathbuf_from),
     (r'^Path::new::<.*>$', m_path_new),
+    (r'^<PathBuf as Deref>::deref$|^PathBuf::as_path$|^<PathBuf as AsRef<Path>>::as_ref$|^<Path as AsRef<Path>>::as_ref$', m_deref_slice),
 ]
